@@ -482,8 +482,8 @@ static void run_zone(const Zone& z, hz::Result& r) {
   hz::tick();
   if (g_prop == "C01") {
     for (long long t : I) check_c01_at(c, t, r);
-    if (g_thorough && (z.shipped || z.tags.compare(0, 3, "zic") == 0 || (std::hash<std::string>()(z.id) % 8) == 0)) {
-      // fixed-stride sweep (all shipped and zic-compiled zones, every 8th synthetic zone) (21601 s steps would be ~10^6 points/zone; use 86400*3+7 to stay within budget) over [first-2y, last+802y]
+    if (g_thorough && (z.shipped || z.tags.compare(0, 3, "zic") == 0 || (std::hash<std::string>()(z.id) % 2) == 0)) {
+      // fixed-stride sweep (all shipped and zic-compiled zones, every 2nd synthetic zone) (21601 s steps would be ~10^6 points/zone; use 86400*3+7 to stay within budget) over [first-2y, last+802y]
       i128 a = (c.rz.times.empty() ? 0 : c.rz.times.front()) - 2 * 31556952LL;
       i128 b = c.last_file + static_cast<i128>(802) * 31556952LL;
       if (c.rz.times.empty()) { a = -3000000000LL; b = 30000000000LL; }
@@ -640,7 +640,7 @@ int main(int argc, char** argv) {
   hz::Args a = hz::parse_args(argc, argv);
   g_prop = a.prop;
   g_thorough = a.thorough();
-  g_k = g_thorough ? 3 : 2;
+  g_k = g_thorough ? 4 : 2;
   if (!ref::self_check()) { fprintf(stderr, "reference calendar self-check failed\n"); return 2; }
   glue::install_factory();
   hz::Result total;
